@@ -95,7 +95,7 @@ func (def *sliceAsList) findByKey(m meta.Meta, target []val.Value, keyMeta []met
 			return notfound, empty, err
 		}
 		for i, v := range candidateKey {
-			if v.Value() != target[i].Value() {
+			if !val.Equal(v, target[i]) {
 				break
 			}
 			isLastKey := i == len(keyMeta)-1
